@@ -135,28 +135,29 @@ INF = float("inf")
 
 FULL = {
     "int": [1, 0, -1, 2 ** 31, 2 ** 63 - 1, None],
-    "str": ["a", "", "it's", "?", "a'; DROP TABLE t; --", None],
+    "str": ["a", "", "it's", "?", "a'; DROP TABLE t; --", "a b", "a  b", "a\tb", "A", " a", None],
     "float": [0.5, -0.0, 1e308, NAN, INF, None],
     "bool": [True, False, None],
 }
 FULL["any"] = [1, 0, -1, 2 ** 31, 2 ** 63 - 1, 0.5, -0.0, 1e308, NAN, INF,
-               "a", "", "it's", "?", "a'; DROP TABLE t; --", True, False, None]
+               "a", "", "it's", "?", "a'; DROP TABLE t; --", "a b", "a  b", "A", True, False, None]
 
 # reduced value set (quick tier)
 REDUCED = {
     "int": [1, 0, 2 ** 31],
-    "str": ["a", "it's", "?"],
+    # "a b" / "a  b" / "A": values that collide under whitespace or case normalisation of the text
+    "str": ["a", "it's", "?", "a b", "a  b", "A"],
     "float": [0.5, None],
     "bool": [True, None],
-    "any": [1, 0.5, "it's", "a'; DROP TABLE t; --", True, None],
+    "any": [1, 0.5, "it's", "a'; DROP TABLE t; --", "a b", "a  b", True, None],
 }
 # middle value set: the length-3 layer of the thorough tier
 MIDDLE = {
     "int": [1, 0, -1],
-    "str": ["a", "it's", "?"],
+    "str": ["a", "it's", "?", "a b", "a  b"],
     "float": [0.5, 1e308, None],
     "bool": [True, False, None],
-    "any": [1, -1, 0.5, "it's", "a'; DROP TABLE t; --", True, None],
+    "any": [1, -1, 0.5, "it's", "a'; DROP TABLE t; --", "a b", "a  b", True, None],
 }
 
 SCHEMA = ["CREATE TABLE t (n BIGINT, s VARCHAR(50), x DOUBLE, b BOOLEAN)"]
@@ -164,6 +165,7 @@ INIT = [
     "INSERT INTO t (n, s, x, b) VALUES (1, 'a', 0.5, TRUE)",
     "INSERT INTO t (n, s, x, b) VALUES (0, 'it''s', NULL, FALSE)",
     "INSERT INTO t (n, s, x, b) VALUES (2147483648, '?', 1e308, NULL)",
+    "INSERT INTO t (n, s, x, b) VALUES (3, 'a b', NULL, NULL)",
 ]
 STATE_QUERY = "SELECT n, s, x, b FROM t"
 
